@@ -6,6 +6,7 @@ import (
 
 	lib "github.com/corazawaf/libinjection-go"
 
+	"verif/alpha"
 	"verif/fw"
 	"verif/refsql"
 )
@@ -272,7 +273,7 @@ func init() {
 						if op.delim == '"' {
 							other = "'"
 						}
-						al := []string{d, "\\", "a", other, "\u00e9", "\u65e5", "\U0001f600", "\xe9", "\x00", "\n", "\u015c"}
+						al := uniq([]string{d, "\\", "a", other, "\u00e9", "\u65e5", "\U0001f600", "\xe9", "\x00", "\n", "\u015c"}, alpha.DeltaSQL(), newByteAtoms())
 						aux := op.name + "|" + c18Tails[i%len(c18Tails)]
 						enumBodies(w, al, maxL, func(body string) { w.Item(body, aux) })
 					})
